@@ -118,6 +118,26 @@ def declared_total_rules(F, rep, P):
                   "the declared total is not converted to channel-independent samples by exact division by %s (found divisors %s): the length contract is enforced against the wrong number" % (want, got))
 
 
+def contiguous_bound_rules(F, rep, P):
+    """metadata::contiguous::Contiguous<MAX, T>: a Vec of exactly MAX items is accepted (the placeholder seek table of a
+    long stream is exactly MAX_POINTS long and is unwrapped), pushing is refused at MAX"""
+    tf = [b for b in F.bodies if b.promoted is None and b.kind != "Closure" and re.search(r"contiguous::Contiguous<MAX, T> as std::convert::TryFrom<std::vec::Vec<T>>>::try_from$", b.path)]
+    if not tf:
+        rep.bad(P + ".cap", "anchor:Contiguous::try_from(Vec)", "", "not found")
+    for b in tf[:1]:
+        cm = []
+        for bl in b.blocks:
+            for st_ in bl["s"]:
+                rv = st_["rv"]
+                if rv["r"] == "bin" and rv["op"] in ("Le", "Lt", "Ge", "Gt"):
+                    sa, sb = backward_slice(b, rv["a"]), backward_slice(b, rv["b"])
+                    if any(re.search(r"::len$", callee_name(c)) for c in sa["calls"] + sb["calls"]):
+                        lhs_len = any(re.search(r"::len$", callee_name(c)) for c in sa["calls"])
+                        cm.append(rv["op"] if lhs_len else {"Le": "Ge", "Lt": "Gt", "Ge": "Le", "Gt": "Lt"}[rv["op"]])
+        rep.check(P + ".cap", "Contiguous::try_from(Vec) accepts up to and including MAX items (len <= MAX)", cm == ["Le"], loc_of(b), str(cm),
+                  "the capacity test of Contiguous::try_from(Vec) is %s: a table of exactly MAX items (a full placeholder seek table) is refused and the encoder constructor unwraps the error" % cm)
+
+
 def run(ctx, rep):
     F = ctx.facts()
     spec = ctx.spec("rfc9639.json")["limits"]
@@ -271,8 +291,11 @@ def run(ctx, rep):
 
     nonempty_frame_rules(F, ok, rep, "C15")
     declared_total_rules(F, rep, "C15")
+    contiguous_bound_rules(F, rep, "C15")
     from rules import C09
     C09.cap_rules(F, rep, "C15", F.statics.get("metadata::SeekTable::MAX_POINTS", {}).get("v"))
 
     # ---- C15.panic ----------------------------------------------------------------------------------------------------------
     auditlib.panic_audit(ctx, rep, "C15", ["G_ctor"], floor_sites=240)
+    from rules import C09 as _C09
+    _C09.run(ctx, SubReport(rep, "C09", "C15.fin", only=r"^C09\.(start|order)$"))
